@@ -101,7 +101,7 @@ pub fn check_formula(f: &fol::Formula, source: &str, r: &mut Rng, n_interps: usi
     let nodes = node_count(f);
     for p in PORTFOLIOS {
         for s in STRATEGIES {
-            let res = run_strategy(p, s, f.clone(), 20_000 + nodes * 2_000, 64);
+            let res = run_strategy(p, s, f.clone(), 4_000 + nodes * 200, 64);
             let (g, trace) = match res {
                 Ok(x) => x,
                 Err(e) => {
